@@ -3,7 +3,7 @@
 ID=$1; shift
 cd /repo || exit 9
 git diff --quiet || { echo "repo dirty"; exit 9; }
-if ! git apply /verif/seeded/$ID/patch.diff 2>/dev/null; then
+if ! git apply $( [ -f /verif/seeded/$ID/patch_rebased.diff ] && echo /verif/seeded/$ID/patch_rebased.diff || echo /verif/seeded/$ID/patch.diff ) 2>/dev/null; then
   git apply --3way /verif/seeded/$ID/patch.diff 2>/dev/null || { echo "$ID patch-does-not-apply"; git checkout -- . ; git reset -q --hard; exit 8; }
   git reset -q   # keep changes in the worktree only
 fi
